@@ -74,8 +74,9 @@ Rng(s)  == {s[i] : i \in DOMAIN s}
 Names   == Rng(D.order)
 IsJoin(t) == D.tasks[t].join # 0
 IntegrityDelay == 10    \* workflow_handler.start_workflow: _schedule_check_and_fix_integrity(delay=10)
-NoRow == [state |-> "none", next |-> {}, processed |-> FALSE, errHandled |-> FALSE]
-Row(s) == [state |-> s, next |-> {}, processed |-> FALSE, errHandled |-> FALSE]
+\* retryNo: retry_task_policy.retry_no of the runtime context (0 = absent); wbSkip / waSkip: the 'skip' marks of wait-before / wait-after
+NoRow == [state |-> "none", next |-> {}, processed |-> FALSE, errHandled |-> FALSE, retryNo |-> 0, wbSkip |-> FALSE, waSkip |-> FALSE]
+Row(s) == [NoRow EXCEPT !.state = s]
 AnyPerm(S) == {s \in [1..Cardinality(S) -> S] : \A a, b \in 1..Cardinality(S) : a # b => s[a] # s[b]}
 SeqOf(S) == CHOOSE s \in AnyPerm(S) : TRUE
 Permute(s, pm) == [i \in 1..Len(s) |-> s[pm[i]]]
@@ -88,6 +89,8 @@ H0 == [rearmed |-> FALSE,     \* a started / finished join was set back to WAITI
        existingSent |-> FALSE,\* resume re-dispatched an IDLE task as RunExistingTask (KF-C10-5)
        stopIgnored |-> FALSE, \* stop(ERROR) on a PAUSED execution returned without effect (KF-C11-1)
        paused |-> FALSE,      \* a pause was requested (operator or pause command)
+       delayedRestart |-> FALSE, \* a _refresh_task_state job restarted a join that was DELAYED (wait-after / retry delay): KF-C08-14
+       timeoutRetry |-> FALSE,   \* the timeout timer failed a task that has a retry policy (KF-C08-1 / -4 / -8)
        multi |-> FALSE,       \* a second execution of a plain task was requested: outside this model (one row per task name)
        ops |-> 0, dups |-> 0]
 
@@ -151,8 +154,11 @@ Affected(t, tks) == Walk(Outbound(t), {t}, tks)
 
 (* ---- the transaction state threaded through the handlers ----                                  *)
 (* S = [wf, tk, ax, backlog, ops, hist]: ops = the post-commit operations registered so far, in order *)
+\* newjobs = the scheduler jobs the transaction persists (policies), in order: [func, t, at, st]
 Op(o, t) == [op |-> o, t |-> t, k |-> 0, fr |-> TRUE, w |-> FALSE]
-Cur == [wf |-> wf, tk |-> tk, ax |-> ax, backlog |-> backlog, ops |-> <<>>, hist |-> hist]
+Cur == [wf |-> wf, tk |-> tk, ax |-> ax, backlog |-> backlog, ops |-> <<>>, hist |-> hist, newjobs |-> <<>>]
+Pol(t) == D.tasks[t]
+PJob(f, t, at, st) == [func |-> f, t |-> t, at |-> at, st |-> st]
 
 \* Task.create_new for a RunTask command: a plain task gets a new IDLE row; a join is deferred (Task.defer)
 Created(tks, t) ==
@@ -194,17 +200,40 @@ Checked(w, tks) ==
   ELSE IF \E x \in Names : tks[x].state = "CANCELLED" THEN "CANCELLED"
   ELSE IF \E x \in Names : tks[x].state = "ERROR" /\ ~tks[x].errHandled THEN "ERROR" ELSE "SUCCESS"
 
-\* Task.complete(state): ignored for a completed task; next tasks and error handling are recorded; while the
-\* execution is PAUSED nothing is dispatched and the task stays unprocessed; a completed execution routes nowhere
-Complete(S, t, s) ==
+\* policies applied after a task reached state s0 (policies.py, in this order: wait-after, retry): the task's row after
+\* them and the jobs they schedule
+AfterComplete(S, t, s0) ==
+  LET r0 == [S.tk[t] EXCEPT !.state = s0]
+      \* wait-after: the first completion is postponed - DELAYED until _complete_task(state) fires
+      wa == Pol(t).waitAfter > 0 /\ ~r0.waSkip
+      r1 == IF wa THEN [r0 EXCEPT !.state = "DELAYED", !.waSkip = TRUE] ELSE r0
+      j1 == IF wa THEN <<PJob("complete", t, now + Pol(t).waitAfter, s0)>> ELSE <<>>
+      \* retry: only for a task that is (still) in a final state; the counter is taken out of the context and put back
+      \* (incremented) only if another attempt follows
+      applies == Pol(t).retry > 0 /\ r1.state \in {"SUCCESS", "ERROR"}
+      again == applies /\ r1.state = "ERROR" /\ r1.retryNo < Pol(t).retry
+      \* (when no further attempt follows the policy removes the counter from its in-memory context only - nested changes of
+      \*  the runtime context are not persisted without touch_runtime_context() - the stored counter stays)
+      r2 == IF ~again THEN r1
+            ELSE [r1 EXCEPT !.retryNo = @ + 1, !.state = IF IsJoin(t) THEN "WAITING" ELSE "DELAYED"]
+      j2 == IF again THEN <<PJob(IF IsJoin(t) THEN "refresh" ELSE "continue", t, now + Pol(t).delay, "")>> ELSE <<>>
+  IN [row |-> r2, jobs |-> j1 \o j2]
+\* Task.complete(state): ignored for a completed task; the policies may postpone the completion (DELAYED: nothing else
+\* happens) or start another attempt; next tasks and error handling are recorded; while the execution is PAUSED nothing
+\* is dispatched and the task stays unprocessed; a completed execution routes nowhere
+Complete(S, t, s0) ==
   IF Done(S.tk[t].state) THEN {S}
-  ELSE LET cmds  == IF S.wf \in Final THEN <<>> ELSE Cmds(t, s)
-           nexts == {cmds[i].t : i \in {j \in 1..Len(cmds) : cmds[j].c = "run"}}
-           \* (while PAUSED the processed flag is left as it is - FALSE for a fresh row, possibly TRUE for a re-armed join)
-           tk1   == [S.tk EXCEPT ![t] = [state |-> s, next |-> nexts, processed |-> (IF S.wf = "PAUSED" THEN S.tk[t].processed ELSE TRUE),
-                                         errHandled |-> (ErrHandled(t, s) /\ S.wf \notin Final)]]
-       IN IF S.wf = "PAUSED" THEN {[S EXCEPT !.tk = tk1]}
-          ELSE Dispatch([S EXCEPT !.tk = tk1, !.ops = IF nexts = {} THEN Append(@, Op("check", "")) ELSE @], cmds, FALSE)
+  ELSE LET ac == AfterComplete(S, t, s0)
+           s  == ac.row.state
+           Sj == [S EXCEPT !.newjobs = @ \o ac.jobs]
+       IN IF s = "DELAYED" THEN {[Sj EXCEPT !.tk[t] = ac.row]}
+          ELSE LET cmds  == IF S.wf \in Final THEN <<>> ELSE Cmds(t, s)
+                   nexts == {cmds[i].t : i \in {j \in 1..Len(cmds) : cmds[j].c = "run"}}
+                   \* (while PAUSED the processed flag is left as it is - FALSE for a fresh row, possibly TRUE for a re-armed join)
+                   tk1   == [S.tk EXCEPT ![t] = [ac.row EXCEPT !.next = nexts, !.processed = (IF S.wf = "PAUSED" THEN S.tk[t].processed ELSE TRUE),
+                                                                !.errHandled = IF s = "ERROR" THEN (ErrHandled(t, s) /\ S.wf \notin Final) ELSE @]]
+               IN IF S.wf = "PAUSED" THEN {[Sj EXCEPT !.tk = tk1]}
+                  ELSE Dispatch([Sj EXCEPT !.tk = tk1, !.ops = IF nexts = {} /\ Done(s) THEN Append(@, Op("check", "")) ELSE @], cmds, FALSE)
 \* task_handler._check_affected_tasks: one schedule_if_needed per existing downstream join (a Python set: any order)
 CheckAffected(S, t) ==
   IF ~Done(S.tk[t].state) \/ S.wf \in Final THEN {S}
@@ -218,7 +247,10 @@ StartAction(S, t) ==
 NewBatch(ops) == IF ops = <<>> THEN ptq ELSE ptq \cup {[id |-> Fresh(Ids(ptq)), ops |-> ops]}
 Commit(S) == /\ wf' = S.wf /\ tk' = S.tk /\ ax' = S.ax /\ backlog' = S.backlog /\ hist' = S.hist
              /\ ptq' = NewBatch(S.ops)
-NewJob(J, func, t, at) == J \cup {[id |-> Fresh(Ids(J)), func |-> func, t |-> t, at |-> at, phase |-> "new"]}
+NewJob(J, func, t, at) == J \cup {[id |-> Fresh(Ids(J)), func |-> func, t |-> t, at |-> at, phase |-> "new", st |-> ""]}
+RECURSIVE AddJobs(_, _)
+AddJobs(J, js) == IF js = <<>> THEN J
+                  ELSE AddJobs(J \cup {[id |-> Fresh(Ids(J)), func |-> Head(js).func, t |-> Head(js).t, at |-> Head(js).at, phase |-> "new", st |-> Head(js).st]}, Tail(js))
 Msg(m, t, k, res, fr, w) == [m |-> m, t |-> t, k |-> k, res |-> res, fr |-> fr, w |-> w]
 WithId(M, c) == [id |-> Fresh(Ids(M)), m |-> c.m, t |-> c.t, k |-> c.k, res |-> c.res, fr |-> c.fr, w |-> c.w]
 NoId(m) == Msg(m.m, m.t, m.k, m.res, m.fr, m.w)
@@ -268,8 +300,15 @@ HandleStartTask(m) ==
   LET t == m.t IN
   IF m.fr
   THEN \* RegularTask._run_new: nothing for a waiting (join) command; an IDLE task starts
+       \* (policies before the start, in this order: wait-before - DELAYED + _continue_task, no action yet; timeout -
+       \*  _fail_task_if_incomplete is armed whether or not the task was delayed)
        IF ~m.w /\ tk[t].state = "IDLE"
-       THEN {StartAction([Cur EXCEPT !.tk[t].state = "RUNNING"], t)}
+       THEN LET wb == Pol(t).waitBefore > 0 /\ ~tk[t].wbSkip
+                S1 == IF wb THEN [Cur EXCEPT !.tk[t].state = "DELAYED", !.tk[t].wbSkip = TRUE,
+                                             !.newjobs = Append(@, PJob("continue", t, now + Pol(t).waitBefore, ""))]
+                      ELSE [Cur EXCEPT !.tk[t].state = "RUNNING"]
+                S2 == IF Pol(t).timeout > 0 THEN [S1 EXCEPT !.newjobs = Append(@, PJob("timeout", t, now + Pol(t).timeout, ""))] ELSE S1
+            IN {IF wb THEN S2 ELSE StartAction(S2, t)}
        ELSE CheckAffected(Cur, t)
   ELSE \* RegularTask._run_existing: refuses a SUCCESS task (MistralError: the transaction rolls back), otherwise sets
        \* RUNNING whatever the state was and starts a new action
@@ -285,34 +324,34 @@ HandleActionComplete(m) ==
   ELSE CompleteAndCheck([Cur EXCEPT !.ax[m.t][m.k] = m.res], m.t, m.res)
 
 Handle(m, isDup) ==
-  CASE m.m = "start_task" -> /\ \E S \in HandleStartTask(m) : Commit(S)
+  CASE m.m = "start_task" -> /\ \E S \in HandleStartTask(m) : Commit(S) /\ jobs' = AddJobs(jobs, S.newjobs)
                              /\ msgs' = msgs \ {m}
     [] m.m = "run_action" -> /\ msgs' = (msgs \ {m}) \cup {WithId(msgs \ {m}, Msg("on_action_complete", m.t, m.k, Outcome(m.t, m.k), TRUE, FALSE))}
-                             /\ UNCHANGED <<wf, tk, ax, ptq, backlog, hist>>
-    [] m.m = "on_action_complete" -> /\ \E S \in HandleActionComplete(m) : Commit(S)
+                             /\ UNCHANGED <<wf, tk, ax, ptq, backlog, hist, jobs>>
+    [] m.m = "on_action_complete" -> /\ \E S \in HandleActionComplete(m) : Commit(S) /\ jobs' = AddJobs(jobs, S.newjobs)
                                      /\ msgs' = msgs \ {m}
 Deliver(m) ==
   /\ m \in msgs
   /\ Handle(m, FALSE)
   /\ seen' = Remember(m)
-  /\ UNCHANGED <<D, jobs, lpass, now>>
+  /\ UNCHANGED <<D, lpass, now>>
   /\ ev' = [a |-> "Deliver", m |-> m.m, t |-> m.t, k |-> m.k, fr |-> m.fr, res |-> m.res]
 \* redelivery of a message that was delivered before (reliable messaging may deliver twice)
 Dup(c) ==
   /\ c \in seen /\ hist.dups < DupBudget
   /\ LET m == [id |-> 0, m |-> c.m, t |-> c.t, k |-> c.k, res |-> c.res, fr |-> c.fr, w |-> c.w]
-     IN /\ CASE c.m = "start_task" -> \E S \in HandleStartTask(m) : Commit([S EXCEPT !.hist.dups = @ + 1]) /\ UNCHANGED msgs
+     IN /\ CASE c.m = "start_task" -> \E S \in HandleStartTask(m) : Commit([S EXCEPT !.hist.dups = @ + 1]) /\ jobs' = AddJobs(jobs, S.newjobs) /\ UNCHANGED msgs
              \* the executor refuses to run a redelivered request and reports an error SYNCHRONOUSLY: the engine handles
              \* on_action_complete(error) inside this very step
-             [] c.m = "run_action" -> \E S \in HandleActionComplete([m EXCEPT !.res = "ERROR"]) : Commit([S EXCEPT !.hist.dups = @ + 1]) /\ UNCHANGED msgs
+             [] c.m = "run_action" -> \E S \in HandleActionComplete([m EXCEPT !.res = "ERROR"]) : Commit([S EXCEPT !.hist.dups = @ + 1]) /\ jobs' = AddJobs(jobs, S.newjobs) /\ UNCHANGED msgs
              \* start_workflow with the id of an existing execution returns that execution
-             [] c.m = "start_workflow" -> Commit([Cur EXCEPT !.hist.dups = @ + 1]) /\ UNCHANGED msgs
-             [] c.m = "on_action_complete" -> \E S \in HandleActionComplete(m) : Commit([S EXCEPT !.hist.dups = @ + 1]) /\ UNCHANGED msgs
+             [] c.m = "start_workflow" -> Commit([Cur EXCEPT !.hist.dups = @ + 1]) /\ UNCHANGED <<msgs, jobs>>
+             [] c.m = "on_action_complete" -> \E S \in HandleActionComplete(m) : Commit([S EXCEPT !.hist.dups = @ + 1]) /\ jobs' = AddJobs(jobs, S.newjobs) /\ UNCHANGED msgs
   \* (the synchronous error report of the executor is itself a delivered message that may be delivered again)
   /\ seen' = IF DupBudget > hist.dups + 1
              THEN seen \cup (IF c.m = "run_action" THEN {Msg("on_action_complete", c.t, c.k, "ERROR", TRUE, FALSE)} ELSE {})
              ELSE {}
-  /\ UNCHANGED <<D, jobs, lpass, now>>
+  /\ UNCHANGED <<D, lpass, now>>
   /\ ev' = [a |-> "Dup", m |-> c.m, t |-> c.t, k |-> c.k, fr |-> c.fr, res |-> c.res]
 
 JobCapture(j) ==
@@ -327,17 +366,26 @@ InvokeBody(j, ran) ==
      THEN \* _check_and_fix_integrity: nothing to fix in these runs; re-arms itself while the execution is unfinished
           /\ jobs' = IF wf \in Final THEN ran ELSE NewJob(ran, "integrity", "", now + 120)
           /\ UNCHANGED <<wf, tk, ax, ptq, backlog, hist>>
+     ELSE IF j.func = "continue"
+     THEN \* policies._continue_task -> task_handler.continue_task: RUNNING whatever the state was (the compare-and-swap's result
+          \* is ignored, a completed task is restarted too), then _run_existing: a new action
+          IF tk[j.t].state = "none" THEN jobs' = ran /\ UNCHANGED <<wf, tk, ax, ptq, backlog, hist>>
+          ELSE Commit(StartAction([Cur EXCEPT !.tk[j.t].state = "RUNNING"], j.t)) /\ jobs' = ran
+     ELSE IF j.func \in {"complete", "timeout"}
+     THEN \* policies._complete_task(state) / _fail_task_if_incomplete: complete_task unless the task is completed already
+          IF tk[j.t].state = "none" \/ Done(tk[j.t].state) THEN jobs' = ran /\ UNCHANGED <<wf, tk, ax, ptq, backlog, hist>>
+          ELSE \E S \in CompleteAndCheck([Cur EXCEPT !.hist.timeoutRetry = @ \/ (j.func = "timeout" /\ Pol(j.t).retry > 0)], j.t,
+                                         IF j.func = "timeout" THEN "ERROR" ELSE j.st) : Commit(S) /\ jobs' = AddJobs(ran, S.newjobs)
      ELSE \* _refresh_task_state(join)
           LET t == j.t
               ls == JoinLogical(t, tk)
-          IN /\ jobs' = ran
-             /\ IF tk[t].state \in {"none", "RUNNING"} \/ Done(tk[t].state) \/ wf \in Final \/ ls = "WAITING"
-                THEN UNCHANGED <<wf, tk, ax, ptq, backlog, hist>>
+          IN /\ IF tk[t].state \in {"none", "RUNNING"} \/ Done(tk[t].state) \/ wf \in Final \/ ls = "WAITING"
+                THEN jobs' = ran /\ UNCHANGED <<wf, tk, ax, ptq, backlog, hist>>
                 ELSE IF ls = "RUNNING"
                 THEN \* continue_task -> _run_existing: the join starts its action
-                     Commit(StartAction([Cur EXCEPT !.tk[t].state = "RUNNING"], t))
+                     Commit(StartAction([Cur EXCEPT !.tk[t].state = "RUNNING", !.hist.delayedRestart = @ \/ (tk[t].state = "DELAYED")], t)) /\ jobs' = ran
                 ELSE \* complete_task(ERROR, 'Failed by tasks: ...') with the usual routing
-                     \E S \in CompleteAndCheck(Cur, t, "ERROR") : Commit(S)
+                     \E S \in CompleteAndCheck(Cur, t, "ERROR") : Commit(S) /\ jobs' = AddJobs(ran, S.newjobs)
 JobInvoke(j) ==
   /\ Scheduler = "default"
   /\ j \in jobs /\ j.phase = "captured"
@@ -452,9 +500,16 @@ KF_DoubleStart  == hist.existingSent                                            
 NoHangM   == Quiet => (wf \in Final \/ (wf = "PAUSED" /\ hist.paused) \/ KF_ResumeJoin \/ KF_NoopResume)
 NoWaitingAtRestM == Quiet => ((\A x \in Names : tk[x].state # "WAITING") \/ wf \in Final \cup {"PAUSED"} \/ KF_ResumeJoin)
 \* C04: a join starts its action at most once per run - modulo re-arming
-JoinOnceM == KF_Rearmed \/ \A x \in Names : IsJoin(x) => Len(ax[x]) <= 1
+\* (C08: with a retry policy at most count + 1 attempts)
+JoinOnceM == KF_Rearmed \/ hist.delayedRestart \/ hist.timeoutRetry \/ \A x \in Names : IsJoin(x) => Len(ax[x]) <= Pol(x).retry + 1
 \* C06 / C10: a plain task starts its action once - modulo the double start after resume; redeliveries never start anything
-StartOnceM == KF_DoubleStart \/ \A x \in Names : ~IsJoin(x) => Len(ax[x]) <= 1
+StartOnceM == KF_DoubleStart \/ hist.timeoutRetry \/ \A x \in Names : ~IsJoin(x) => Len(ax[x]) <= Pol(x).retry + 1
+\* C08: at rest a task with a retry policy (and no timeout) ends in the state of its last attempt; no attempt after a success
+FinalIffLastM == Quiet => \A x \in Names : (Pol(x).retry > 0 /\ Pol(x).timeout = 0 /\ Done(tk[x].state) /\ ax[x] # <<>>
+                                               /\ ~KF_Rearmed /\ ~hist.delayedRestart /\ ~KF_DoubleStart)
+                               => ((tk[x].state = "SUCCESS") <=> (ax[x][Len(ax[x])] = "SUCCESS"))
+StopAtFirstSuccessM == \A x \in Names : (Pol(x).retry > 0 /\ ~KF_Rearmed /\ ~hist.delayedRestart /\ ~KF_DoubleStart /\ ~hist.timeoutRetry)
+                          => \A k \in 1..Len(ax[x]) : ax[x][k] = "SUCCESS" => k = Len(ax[x])
 \* C04: a join starts (its first action appears) only when enough inbound tasks completed and routed to it
 JoinGateM == [][\A x \in Names : (IsJoin(x) /\ Len(ax[x]) = 0 /\ Len(ax'[x]) = 1) =>
                    LET fed == {i \in Inbound(x) : Done(tk'[i].state) /\ x \in tk'[i].next}
